@@ -277,7 +277,7 @@ def impl_hist(inp):
         pos = tuple(pos)
         # the viewer walks to an EMPTY cell (so that every cell dictionary keeps the order a fresh
         # placement would give it)
-        if grid._internal[pos] == {} and tuple(viewer.position) != pos:
+        if grid[pos] == {} and tuple(viewer.position) != pos:
             grid.remove(viewer, viewer.position)
             assert grid.place(viewer, pos)
             cur[0] = list(cur[0])
